@@ -207,6 +207,64 @@ def run(rep, tier, seed, replay=None):
                 rep.violation("C10: %s  [zero counts left at default; case: %s]" % (fail, l[:300]), {"kind": "expand", "case": l, "case_obj": c, "lazy": True})
                 nviol += 1
                 break
+    # third construction path: two-step expansion.  The first delayed replication is expanded with count 0 (body skipped), the delayed
+    # counts inside the skipped body are preset to J, then the outer count is set to K >= 1 and the subset expanded again: the nested
+    # replications must come out with the preset counts (regulation 94.5 applied to the counts the application supplied)
+    ts = []
+    if replay and replay.get("two_step") is not None:
+        ts = [(replay["two_step"], replay["case_obj"], gen.case_line(replay["case_obj"]["ed"], 0, replay["case_obj"]["tmpl"], replay["case_obj"]["subsets"]))]
+    elif not replay:
+        seqs = [d for d in (301011, 301012, 301013, 301021, 301023) if d in ctx.T.D]
+        for _ in range(60 if tier == "quick" else 600):
+            K = rng.choice([1, 1, 2, 3]); J = rng.choice([0, 1, 2, 2, 3])
+            el = lambda: rng.choice(ctx.T.pool["code"])
+            inner = rng.choice([[el()], [el(), el()], [rng.choice(seqs)] if seqs else [el()], [el(), rng.choice(seqs)] if seqs else [el()]])
+            if rng.random() < 0.3:
+                inner = inner + [101000, rng.choice([31001, 31002]), el()]          # a third level, preset to J as well
+            pre = [el() for _ in range(rng.randint(0, 2))]
+            post = [el() for _ in range(rng.randint(0, 1))]
+            body = pre + [100000 + 1000 * len(inner), rng.choice([31001, 31002])] + inner + post
+            t = [el() for _ in range(rng.randint(0, 1))] + [100000 + 1000 * len(body), rng.choice([31001, 31002])] + body + [el() for _ in range(rng.randint(0, 1))]
+            st = {"first": True}
+            def choose(f, K=K, J=J, st=st):
+                if f["desc"] in gen.FACTORS:
+                    if st["first"]:
+                        st["first"] = False
+                        return dict(raw=K, af=0)
+                    return dict(raw=J, af=0)
+                if f["kind"] in ("str", "chars"):
+                    return dict(str=[255] * (f["width"] // 8), af=0)
+                return dict(raw=(1 << f["width"]) - 1 if not f.get("c31") else 1, af=0)
+            try:
+                sq = gen.walk(ctx.T, 4, t, choose, limit=30000)
+            except gen.Reject:
+                continue
+            if not all(gen.wf(f) for f, _ in sq) or any(f["kind"] == "num" and f["width"] > 32 for f, _ in sq):
+                continue
+            c = dict(ed=4, tmpl=t, subsets=[sq], same=False)
+            ts.append((J, c, gen.case_line(4, 0, t, [sq])))
+    for J in sorted(set(j for j, _, _ in ts)):
+        grp = [(c, l) for j, c, l in ts if j == J]
+        lo = ctx.run_c(["LAZY 2 %d" % J] + [l for _, l in grp])
+        if len(lo) < len(grp) + 1:
+            bad_l = grp[max(len(lo) - 1, 0)][1]
+            rep.violation("C10: the library crashed in a two-step expansion (outer count 0, inner counts preset to %d, then outer count set and expanded again): %s  [case: %s]" % (J, ctx.sanitizer_summary()[:200], bad_l[:300]),
+                          {"kind": "expand", "case": bad_l, "case_obj": grp[max(len(lo) - 1, 0)][0], "two_step": J})
+            nviol += 1
+            ctx = codec.Ctx()
+            continue
+        ctx.run_c(["LAZY 0"])
+        for (c, l), o in zip(grp, lo[1:]):
+            rep.count(("two_step", J, l))
+            feat["two_step_preset_%d" % J] += 1
+            h1, s1 = codec.parse_c_listing(o)
+            fail = ("after the second expansion a nested delayed replication is not expanded with the count the application preset (harness rc=-5)" if h1.get("rc") == "-5"
+                    else "the two-step construction failed (rc=%s)" % h1.get("rc")) if h1.get("rc") != "0" else codecrun.check_listing_against_intent(c, s1, check_values=False)
+            if fail:
+                rep.violation("C10: %s  [two-step expansion: first delayed replication expanded with count 0, the delayed counts of its skipped body preset to %d, then the outer count set and the subset expanded again; case: %s]"
+                              % (fail, J, l[:300]), {"kind": "expand", "case": l, "case_obj": c, "two_step": J})
+                nviol += 1
+                break
     # ill-formed
     bad = []
     if replay and replay.get("template"):
@@ -277,7 +335,7 @@ def run(rep, tier, seed, replay=None):
         rep.violation("C10: proof obligations no longer check (tables changed?) and no failing input was found", getattr(rep, "proof_broken", {}), no_input=True)
     rep.cov["traces_validated_against_impl"] = rep.cov["evaluations"]
     rep.cov["rule"] = ("exhaustive: every Table D entry of the 5 shipped table versions as a one-descriptor template (static expansion vs sexpand; with every delayed count = 1 vs layout); "
-                       "generated well-formed templates nesting fixed/delayed replication and Table D to depth 4 incl. zero counts; single delayed replications with factors up to 255 and all five factor descriptors; "
+                       "generated well-formed templates nesting fixed/delayed replication and Table D to depth 4 incl. zero counts; two-step expansions (outer count 0, nested counts preset, outer count set, expanded again) of nested delayed replications; single delayed replications with factors up to 255 and all five factor descriptors; "
                        "ill-formed variants (span longer, body truncated, factor missing/invalid, unknown Table B/D descriptor, lone replication, nested overrun) that the regulation-level acceptance test refuses. "
                        "distinct = distinct templates / (version, entry) pairs")
     rep.cov["distribution"] = dict(feat)
